@@ -53,7 +53,7 @@ package grpctunnel
 //@   ensures[C18] @malformed len(vals) > 0 && !wellformedTimeout(s) ==> !result1
 //@   ensures[C18] @nonneg    result1 ==> result0 >= 0
 //@   assigns nothing
-//@   nopanic[C18,C09]
+//@   nopanic[C03,C09,C18]
 
 // ---------------------------------------------------------------------------
 // flow_control.go: senders (C01 chunking, C06 window reservation, C13 framing)
@@ -186,7 +186,7 @@ package grpctunnel
 //@   ensures[C06]     @errors   result == nil || result == errFlowControlWindowExceeded
 //@   ensures[C01]     @fifo     old(qlen(r.items)) > 0 ==> qat(r.items, 0) == old(qat(r.items, 0))
 //@   effects nosend, nowait
-//@   nopanic[C09]
+//@   nopanic[C03,C09]
 
 //@ func (*defaultReceiver).handleClosure
 //@   requires held(r.mu)
@@ -314,7 +314,7 @@ package grpctunnel
 //@   ensures[C03,C08,C09]         @unknown !old(has(s.streams, streamID)) && streamID > old(s.lastSeen) ==> result0 == nil && result1 != nil
 //@   ensures[C03,C07]             @readonly s.lastSeen == old(s.lastSeen) && s.streams == old(s.streams)
 //@   effects nosend, nowait
-//@   nopanic[C09]
+//@   nopanic[C03,C09]
 
 //@ func (*tunnelServer).removeStream
 //@   locks s.mu
@@ -334,7 +334,7 @@ package grpctunnel
 //@   at return#2 assert[C08] @stream sd.Streams[i].StreamName == method
 //@   ensures[C08] @kind result == nil || result is *grpc.MethodDesc || result is *grpc.StreamDesc
 //@   ensures[C09] @nonnilptr result == nil || id(result) != 0
-//@   nopanic[C09]
+//@   nopanic[C03,C09]
 
 //@ func fromProto
 //@   assigns nothing
@@ -345,7 +345,7 @@ package grpctunnel
 //@   ensures[C02] @nonnil md != nil ==> result != nil
 //@   ensures[C02] @keys   md != nil ==> forall k string :: has(result, k) <==> has(md.Md, k)
 //@   ensures[C02,C18] @values md != nil ==> forall k string :: has(md.Md, k) ==> sameSlice(result[k], md.Md[k].Val)
-//@   nopanic[C09]
+//@   nopanic[C03,C09]
 
 //@ func toProto
 //@   assigns nothing
@@ -418,7 +418,7 @@ package grpctunnel
 //@     assert[C08]     @handler    md != nil && arg1 == md && arg0 == str
 //@     assert[C04,C17] @ctx        descends(str.ctx, old(ctx))
 //@     assert[C14]     @cancelfn   str.cancel != nil && str.sender != nil && str.receiver != nil
-//@   nopanic[C09]
+//@   nopanic[C03,C09]
 
 // ----- server stream: frame dispatch, half-close, finish ---------------------
 
@@ -429,11 +429,11 @@ package grpctunnel
 //@   at call close#1
 //@     assert[C01,C07,C13] @token won(st.halfClosed)
 //@   effects nosend, nowait
-//@   nopanic[C09]
+//@   nopanic[C03,C09]
 
 //@ func (*tunnelServerStream).finishStream
 //@   ensures[C04,C07,C14] @readerreleased won(st.halfClosed) ==> rclosed(st.receiver)
-//@   ensures[C07]         @recorded atomicLoad(st.halfClosed) != nil
+//@   ensures[C03,C07]     @recorded atomicLoad(st.halfClosed) != nil
 //@   locks st.svr.mu, st.writeMu
 //@   assigns st.halfClosed, cancel(st.cancel), rclosed(st.receiver)
 //@   at call removeStream#1
@@ -454,7 +454,7 @@ package grpctunnel
 //@   ensures[C13]     @closes     !old(st.closed) ==> count("go") == 1
 //@   ensures[C02]     @cleared    !old(st.closed) ==> st.headers == nil && st.trailers == nil
 //@   effects nosend, nowait
-//@   nopanic[C09]
+//@   nopanic[C03,C09]
 
 // The goroutine that puts headers-if-needed and then the close frame on the wire.
 //@ func (*tunnelServerStream).finishStream$1
@@ -506,7 +506,7 @@ package grpctunnel
 //@   locks st.svr.mu, st.writeMu
 //@   assigns st.halfClosed, cancel(st.cancel), rclosed(st.receiver)
 //@   effects nilrecv-ok, nosend, nowait
-//@   nopanic[C09]
+//@   nopanic[C03,C09]
 
 // ----- server stream: writing ------------------------------------------------
 
@@ -793,7 +793,7 @@ package grpctunnel
 //@   ensures[C04,C14] @handlerroot   count("call:createStream") > 0 ==> cancelCalled(cancelOf(root))
 //@   locks s.mu, str.writeMu, str.svr.mu
 //@   assigns *
-//@   nopanic[C09]
+//@   nopanic[C03,C09]
 
 // Settings frame: stream id -1, advertised window = enforced window, own revisions.
 //@ func (*tunnelServer).serve$1
@@ -927,7 +927,7 @@ package grpctunnel
 //@   ensures[C03,C09]         @unknown !old(has(c.streams, streamID)) && !(old(c.streamCreated) && streamID <= old(c.lastStreamID)) ==> result0 == nil && result1 != nil
 //@   ensures[C03,C07]         @readonly c.lastStreamID == old(c.lastStreamID) && c.streams == old(c.streams) && c.finished == old(c.finished)
 //@   effects nosend, nowait
-//@   nopanic[C09]
+//@   nopanic[C03,C09]
 
 //@ func (*tunnelChannel).removeStream
 //@   locks c.mu
@@ -996,7 +996,7 @@ package grpctunnel
 //@   locks st.ch.mu, st.metaMu
 //@   assigns st.done, cancel(st.cancel), rclosed(st.receiver), chan(st.doneSignal), chan(st.gotHeadersSignal), elems(st.trailersTargets)
 //@   effects nosend, nowait
-//@   nopanic[C09]
+//@   nopanic[C03,C09]
 
 // A stream is cancelled only for a genuine error: recording nil or io.EOF here
 // would tell the caller that an RPC that was cut short ended normally.
@@ -1072,7 +1072,7 @@ package grpctunnel
 //@   locks st.ch.mu, st.metaMu
 //@   assigns st.done, cancel(st.cancel), rclosed(st.receiver), chan(st.doneSignal), chan(st.gotHeadersSignal), elems(st.trailersTargets), elems(st.headersTargets)
 //@   effects nilrecv-ok, nosend, nowait
-//@   nopanic[C09]
+//@   nopanic[C03,C09]
 
 // ----- client stream: caller-facing operations --------------------------------------
 
@@ -1315,7 +1315,7 @@ package grpctunnel
 //@   ensures[C04,C14] @closesfirst count("call:close") == 1
 //@   locks c.mu, str.ch.mu, str.metaMu
 //@   assigns *
-//@   nopanic[C09]
+//@   nopanic[C03,C09]
 
 // ----- client: starting RPCs -----------------------------------------------------------------
 
@@ -1832,7 +1832,7 @@ package grpctunnel
 //@   assigns nothing
 //@   ensures[C06] @errors result == nil
 //@   ensures[C04,C09] @cancellable count("blocking") <= 3
-//@   nopanic[C09]
+//@   nopanic[C03,C09]
 
 // close(r.closed) must happen while ingestMu is NOT held: it is what wakes an
 // accept that is blocked on the full channel while holding that lock.
@@ -1842,6 +1842,10 @@ package grpctunnel
 //@     assert[C04,C09] @wakefirst !held(r.ingestMu)
 //@   at close#2
 //@     assert[C09] @underlock held(r.ingestMu)
+//@   assigns chan(r.closed), chan(r.ch)
+
+//@ func (*noFlowControlReceiver).cancel
+//@   ensures[C03,C04,C07] @closes count("ext:Do") == 1
 //@   assigns chan(r.closed), chan(r.ch)
 
 //@ func (*noFlowControlReceiver).dequeue
